@@ -43,6 +43,7 @@ pub fn generator(prop: &str) -> Option<Gen> {
         "C11" => Some(gen::gen_c11),
         "C14" => Some(gen::gen_c14),
         "C20" => Some(gen::gen_c20),
+        "C16" => Some(gen::gen_c16),
         _ => None,
     }
 }
@@ -50,6 +51,7 @@ pub fn generator(prop: &str) -> Option<Gen> {
 pub fn budget(prop: &str, tier: &str) -> u64 {
     let quick = match prop {
         "C11" => 400,
+        "C16" => 400,
         "C14" => 3 * 6 * 155 + 200,
         _ => 150,
     };
